@@ -470,6 +470,30 @@ func tuples(r *rand.Rand, o *opInfo, budget int) [][]v128 {
 	return out
 }
 
+// constSet: operand values that matter as compile-time constants.
+func constSet(r *rand.Rand, t byte) []v128 {
+	var out []v128
+	add := func(vs ...uint64) {
+		for _, v := range vs {
+			out = append(out, v128{v})
+		}
+	}
+	switch t {
+	case wb.I32:
+		add(0, 1, 2, 3, 4, 7, 8, 16, 31, 32, 33, 63, 64, 127, 128, 255, 256, 0x7fff, 0x8000, 0xffff, 0x10000, 0x40000000, 0x7fffffff, 0x80000000, 0x80000001, 0xfffffffe, 0xffffffff)
+	case wb.I64:
+		add(0, 1, 2, 3, 4, 8, 31, 32, 33, 63, 64, 65, 127, 128, 255, 256, 0x7fffffff, 0x80000000, 0xffffffff, 0x100000000, 0x100000001, 1<<40, 1<<62, 1<<63, 0x7fffffffffffffff, 0xfffffffffffffffe, 0xffffffffffffffff)
+	case wb.F32:
+		add(0, 0x80000000, 0x3f800000, 0xbf800000, 0x3f000000, 0x40000000, 0x7f800000, 0xff800000, 0x7fc00000, 0x4f000000, 0x00000001)
+	case wb.F64:
+		add(0, 0x8000000000000000, 0x3ff0000000000000, 0xbff0000000000000, 0x3fe0000000000000, 0x4000000000000000, 0x7ff0000000000000, 0xfff0000000000000, 0x7ff8000000000000, 0x41e0000000000000, 1)
+	default:
+		out = append(out, v128{0, 0}, v128{^uint64(0), ^uint64(0)}, v128{0x8080808080808080, 0x8080808080808080}, v128{0x0001000100010001, 0x0001000100010001},
+			v128{1, 0}, v128{0, 1}, v128{r.Uint64(), r.Uint64()}, v128{0x7f7f7f7f7f7f7f7f, 0x0f0e0d0c0b0a0908})
+	}
+	return out
+}
+
 // ---- execution -------------------------------------------------------------------------------
 
 type placement struct {
@@ -539,6 +563,14 @@ func buildModule(o *opInfo, imm []byte, constTuples [][]v128) []byte {
 			pb = append(pb, constOf(o.params[len(o.params)-1], ct[len(o.params)-1])...)
 			pb = append(pb, opBody(o, imm)...)
 			m.AddFunc(wb.Func{Params: o.params[:len(o.params)-1], Results: []byte{o.result}, Body: pb, Export: fmt.Sprintf("pc%d", k)})
+			// first operand constant, others parameters
+			var fb []byte
+			fb = append(fb, constOf(o.params[0], ct[0])...)
+			for i := 1; i < len(o.params); i++ {
+				fb = append(fb, wb.LocalGet(uint32(i-1))...)
+			}
+			fb = append(fb, opBody(o, imm)...)
+			m.AddFunc(wb.Func{Params: o.params[1:], Results: []byte{o.result}, Body: fb, Export: fmt.Sprintf("cp%d", k)})
 		}
 	}
 	return m.Bytes()
@@ -746,10 +778,23 @@ func runOp(r *rand.Rand, o *opInfo, engines []engine, budget int) {
 	unsupported := false
 	for _, imm := range imms {
 		ts := tuples(r, o, budget)
-		// constant placements: a few boundary tuples
+		// constant placements: every value of the per-type constant set in the last and in the first operand
+		// position (immediates, strength reduction and constant folding are decided at compile time)
 		var cts [][]v128
-		for k := 0; k < 6 && k < len(ts); k++ {
-			cts = append(cts, ts[(k*7919)%len(ts)])
+		{
+			last, first := o.params[len(o.params)-1], o.params[0]
+			for k, c := range constSet(r, last) {
+				t := append([]v128{}, ts[(k*7919)%len(ts)]...)
+				t[len(t)-1] = c
+				cts = append(cts, t)
+			}
+			if len(o.params) >= 2 {
+				for k, c := range constSet(r, first) {
+					t := append([]v128{}, ts[(k*104729)%len(ts)]...)
+					t[0] = c
+					cts = append(cts, t)
+				}
+			}
 		}
 		bin := buildModule(o, imm, cts)
 		mods := make([]api.Module, len(engines))
@@ -823,9 +868,11 @@ func runOp(r *rand.Rand, o *opInfo, engines []engine, budget int) {
 			check("const", ct, fmt.Sprintf("c%d", k), nil, false)
 			if len(o.params) >= 2 {
 				// vary the leading operands over the tuples, last operand fixed
-				for j := 0; j < len(ts); j += 1 + len(ts)/40 {
+				for j := 0; j < len(ts); j += 1 + len(ts)/12 {
 					tup := append(append([]v128{}, ts[j][:len(o.params)-1]...), ct[len(o.params)-1])
 					check("param+const", tup, fmt.Sprintf("pc%d", k), flat(o.params[:len(o.params)-1], tup), false)
+					tup2 := append([]v128{ct[0]}, ts[j][1:]...)
+					check("const+param", tup2, fmt.Sprintf("cp%d", k), flat(o.params[1:], tup2[1:]), false)
 				}
 			}
 		}
